@@ -706,7 +706,9 @@ func (x *Exec) evalIndex(st *State, e *ast.IndexExpr) *Term {
 		s := x.eval(st, e.X)
 		i := x.eval(st, e.Index)
 		x.oblige(st, "idx", "", And(Le(IntLit(0), i), Lt(i, slLen(s))), e)
-		return x.loadTyped(st, u.Elem(), Add(slBase(s), i))
+		v := x.loadTyped(st, u.Elem(), Add(slBase(s), i))
+		x.assumeElemInv(st, bt, u.Elem(), v)
+		return v
 	case *types.Map:
 		m := x.eval(st, e.X)
 		k := x.evalAs(st, e.Index, u.Key())
@@ -766,6 +768,10 @@ func (x *Exec) mapLookup(st *State, mt *types.Map, m, k *Term) (val, ok *Term) {
 	val = selectKV(vals, k, vs)
 	if x.spec == 0 {
 		st.assume(Implies(ok, x.typeInv(mt.Elem(), val, st, 1)))
+		if x.p.NonNilElems[typeStr(mt)] {
+			x.elemInvUsed(typeStr(mt))
+			st.assume(Implies(ok, x.nonNilPointee(st, mt.Elem(), val)))
+		}
 	}
 	return val, ok
 }
@@ -982,4 +988,36 @@ func trimTypeName(s string) string {
 		return s[i+1:]
 	}
 	return s
+}
+
+// assumed data invariants (assume-invariant directives): the elements of the
+// registered container types are non-nil pointers to non-nil values.
+func (x *Exec) assumeElemInv(st *State, container types.Type, elem types.Type, v *Term) {
+	if x.spec > 0 || !x.p.NonNilElems[typeStr(container)] {
+		return
+	}
+	x.elemInvUsed(typeStr(container))
+	st.assume(x.nonNilPointee(st, elem, v))
+}
+
+func (x *Exec) elemInvUsed(t string) {
+	msg := "assumed data invariant: elements of " + t + " are non-nil pointers to non-nil values"
+	for _, a := range x.assumed {
+		if a == msg {
+			return
+		}
+	}
+	x.assumed = append(x.assumed, msg)
+}
+
+func (x *Exec) nonNilPointee(st *State, elem types.Type, v *Term) *Term {
+	pt, ok := elem.Underlying().(*types.Pointer)
+	if !ok {
+		return tTrue
+	}
+	cs := []*Term{Neq(v, IntLit(0))}
+	if isIfaceType(pt.Elem()) {
+		cs = append(cs, Neq(x.hread(st, heapOfType(pt.Elem()), SIface, v), ifaceNil))
+	}
+	return And(cs...)
 }
